@@ -66,4 +66,27 @@ theorem C01_row_roundtrip (r : Row) (rest b : Bytes)
     (he : strListEncode 65535 r = .ok b) : strListRead (b ++ rest) = .ok (r, rest) :=
   strList_roundtrip 65535 (by decide) r rest b hc hn he
 
+/-- The key order is column by column: no flattening of a composite key into one byte string with a
+    separator byte `sep` reproduces it, because the separator may occur in a cell. For every
+    separator there are two keys in ascending key order whose flattened forms are in descending
+    order, and two different keys whose flattened forms are equal. (Why the generated tables carry
+    composite keys over prefixes and the bytes 0x00, 0x01, 0x1f, tab.) -/
+theorem C01_key_order_is_not_a_flattened_order (sep : UInt8) :
+    (∃ a b : List Bytes, keyCmp a b = .lt ∧ bytesCmp (List.intercalate [sep] a) (List.intercalate [sep] b) ≠ .lt) ∧
+    (∃ a b : List Bytes, a ≠ b ∧ List.intercalate [sep] a = List.intercalate [sep] b) := by
+  have h255 : ¬ ((255 : UInt8) < sep) := by
+    have := sep.toNat_lt
+    rw [UInt8.lt_iff_toNat_lt]
+    simp
+    omega
+  constructor
+  · refine ⟨[[107], [255]], [[107, sep], []], ?_, ?_⟩
+    · simp [keyCmp, bytesCmp]
+    · by_cases h : sep < 255
+      · simp [List.intercalate, bytesCmp, h, h255]
+      · simp [List.intercalate, bytesCmp, h, h255]
+  · refine ⟨[[107, sep], [98]], [[107], [sep, 98]], ?_, ?_⟩
+    · simp
+    · simp [List.intercalate]
+
 end Wrgl
